@@ -223,4 +223,17 @@ func init() {
 		Outside:     []string{"SpawnChild (same Registry.add path)", "Stop concurrent with Spawn", "several ids (the registry map is keyed by id; ids do not interact)"},
 		Assumptions: thrAssume("L1 (fake inbox) for the sequential histories, L2 (real Inbox) for the concurrent spawns"),
 	})
+
+	reg(&PropSpec{
+		ID: "C11",
+		Harnesses: func(tier string) []HarnessSpec {
+			return []HarnessSpec{{Name: "request-response", Pkg: "actor", Func: "ZZ_C11", Preempt: tierSel(tier, 1, 2), Params: pm("R", 2),
+				Witnesses: []string{"replied", "timed-out", "late-reply"}, Deadline: 60 * time.Minute}}
+		},
+		Bounds: func(tier string) string {
+			return fmt.Sprintf("2 concurrent requests to one responder; each is replied to 0, 1 or 2 times by a replier goroutine; the timeout timer of each Result may fire at any scheduling point (reply delay on either side of the timeout is a scheduling choice); response ids drawn from math/rand are symbolic (any value in range); preemption bound %d", tierSel(tier, 1, 2))
+		},
+		Outside:     []string{"more than 2 requests / 2 replies", "a second reply that arrives before Result returned (buffered and dropped, not covered by the statement)", "requests through Context.Request (same Engine.Request path)"},
+		Assumptions: thrAssume("bare engine, recording responder, Response/Registry real; context.WithTimeout modelled by a timer goroutine that cancels whenever scheduled"),
+	})
 }
